@@ -153,6 +153,25 @@ func (c *c15Case) body() {
 			return
 		}
 	}
+	// the executor's completion listeners ran once and tell what the callers got
+	var done []Event
+	nVerdict := 0
+	for _, e := range env.Events {
+		if e.Policy == -1 && e.Name == "done" {
+			done = append(done, e)
+		}
+		if e.Policy == -1 && (e.Name == "success" || e.Name == "failure") {
+			nVerdict++
+		}
+	}
+	if len(done) != 1 || nVerdict != 1 {
+		vrt.Fail(fmt.Sprintf("executor listeners: OnDone x%d, OnSuccess/OnFailure x%d", len(done), nVerdict))
+		return
+	}
+	if (done[0].V != v && !isRunEntry(c.entry)) || done[0].E != err {
+		vrt.Fail(fmt.Sprintf("OnDone reported (%d,%v), the ExecutionResult holds (%d,%v)", done[0].V, done[0].E, v, err))
+		return
+	}
 	// agreement with the synchronous execution of the same program
 	pv := c.pv
 	if isRun {
@@ -242,6 +261,8 @@ func c15ReuseBody(stack []Spec, script1, script2 []Out, cancelAt, secondAt time.
 	}
 }
 
+func isRunEntry(entry string) bool { return strings.HasPrefix(entry, "Run") }
+
 var errUnknown = errors.New("unknown")
 
 // nopExec stands in for the Execution in entry points that do not pass one to the function.
@@ -330,6 +351,11 @@ func c15Scenarios(tier string) []*Scenario {
 	}
 	add(&c15Case{name: "retry-cancel-blocking", stack: []Spec{retry}, script: []Out{{Err: E1, Block: true}}, entry: "GetWithExecution", readers: readerSets[2], cancelAt: 15})
 	add(&c15Case{name: "bare-cancel", stack: nil, script: []Out{{V: 1, Block: true}}, entry: "GetWithExecution", readers: readerSets[0], cancelAt: 15})
+	// Cancel while a function that ignores cancellation runs, under nothing / policies that do not react to cancellation
+	for i, st := range [][]Spec{nil, {{Kind: KBreaker, FT: 2, FC: 2, BDelay: 1000}}, {{Kind: KBulkhead, Conc: 1}}, {{Kind: KFallback, FbV: 9}}, {{Kind: KCache, Key: "a"}}, {retry}} {
+		add(&c15Case{name: "cancel-uncooperative", stack: st, script: []Out{{V: 1, Dur: 30}}, entry: entries[i%4], readers: readerSets[0], cancelAt: 15})
+		add(&c15Case{name: "cancel-uncooperative-err", stack: st, script: []Out{{Err: E1, Dur: 30}}, entry: entries[(i+1)%4], readers: readerSets[0], cancelAt: 15})
+	}
 	add(&c15Case{name: "retry-cancel-slow-return", stack: []Spec{retry}, script: []Out{{Err: E1, Block: true, Dur: 30}}, entry: "GetWithExecution", readers: readerSets[0], cancelAt: 15})
 	// one Executor value reused: after a cancelled execution, after a completed one, and overlapping one that is cancelled
 	okAfter := []Out{coop(10, E1, 0), coop(10, nil, 1)}
